@@ -419,9 +419,10 @@ def rule_r4(ctx, marker: str) -> RuleResult:
                            "'Lua timeout error')", node.lineno))
     # stacks popped after the try on every path
     trys = [n for n in fn.body if isinstance(n, ast.Try)]
-    pops = [n for n in fn.body if isinstance(n, ast.If) and "lua_env_stack" in unparse(n.test) and "lua_env_stack.pop()" in unparse(n)]
-    popf = [n for n in fn.body if isinstance(n, ast.If) and "lua_frame_stack" in unparse(n.test) and "lua_frame_stack.pop()" in unparse(n)]
-    if trys and pops and popf and pops[0].lineno > trys[-1].end_lineno and popf[0].lineno > trys[-1].end_lineno:
+    from . import _expand as X_
+    ke, _ne = X_.lua_stack_cleanup(fn, "lua_env_stack")
+    kf, _nf = X_.lua_stack_cleanup(fn, "lua_frame_stack")
+    if trys and ke is not None and kf is not None:
         rr.ok("luaexec.call_lua_sandbox", "environment and frame stacks are popped after the call on every path")
     else:
         rr.bad(Finding("C07.R4", LX, "luaexec.call_lua_sandbox", "lua_env_stack.pop() / lua_frame_stack.pop() after the try",
@@ -714,6 +715,75 @@ def rule_r9(ctx) -> RuleResult:
                   "after the next start_page a top-level #invoke is taken for a nested one and gets no timeout hook", min_instances=2)
 
 
+def rule_r10(ctx, marker: str) -> RuleResult:
+    """The time limit belongs to the outermost invocation.  Two things on the Python side of a *nested* invocation
+    (frame:preprocess("{{#invoke:...}}"), expandTemplate, ...) decide whether the enclosing function can outlive it:
+
+    (a) what the failed invocation removes from the Lua stacks.  `_lua_invoke` pushes the module environment only after it has
+        cloned it; the clone is where most VM instructions of a small invocation are spent, so that is where the hook fires.
+        If Python then pops "one entry" rather than cutting the stack back to its length at entry, it pops the *enclosing*
+        invocation's environment; the stack is empty while that invocation still runs, and every later nested #invoke takes
+        itself for an outermost one -- resets the sandbox, restarts the clock and removes the hook when it returns.
+    (b) what it does with the time-limit error.  Returned as text, a loop around frame:preprocess absorbs every firing of the
+        hook that lands in nested code (nearly all of them) and is never stopped; the error has to be passed on (a `raise`
+        on the path where the marker was found and an enclosing invocation exists).
+
+    Genuine defect of the pinned tree (both parts), found by the agent that seeded C07 in round 9 and confirmed with
+    findings/repro/c07_nested_timeout.py; repaired by F27."""
+    from . import _expand as X_
+
+    rr = RuleResult("C07.R10", "a nested invocation pops only what it pushed and passes the time-limit error on to the enclosing one", min_instances=3)
+    fn = ctx.fn("luaexec.call_lua_sandbox")
+    for stack in ("lua_env_stack", "lua_frame_stack"):
+        kind, node = X_.lua_stack_cleanup(fn, stack)
+        if kind is None:
+            raise AnalysisError("call_lua_sandbox: clean-up of ctx.{} after the Lua call not recognised".format(stack))
+        if kind == "snapshot":
+            rr.ok("luaexec.call_lua_sandbox", "ctx.{} is cut back to its length at entry".format(stack), {"stack": stack, "cleanup": unparse(node)[:80]})
+        else:
+            rr.bad(Finding("C07.R10", LX, "luaexec.call_lua_sandbox", "{}.pop() not bounded by the length at entry".format(stack),
+                           "after the Lua call one entry is popped off ctx.{} whether or not this invocation had pushed one: a nested #invoke "
+                           "that fails before `_python_append_env` (the hook firing while the environment is cloned) removes the environment of "
+                           "the enclosing invocation, after which every nested #invoke restarts the clock and removes the hook -- the enclosing "
+                           "function runs without a time limit".format(stack), node.lineno))
+    # (b) a raise on the failure path, under a test for the marker and for nestedness
+    parents = {c: p_ for p_ in ast.walk(fn) for c in ast.iter_child_nodes(p_)}
+    snaps = {n.targets[0].id for n in walk_no_nested(fn) if isinstance(n, ast.Assign) and len(n.targets) == 1 and isinstance(n.targets[0], ast.Name)
+             and unparse(n.value) in ("len(ctx.lua_env_stack)", "len(ctx.lua_frame_stack)")}
+    passes_on = []
+    for r in [n for n in walk_no_nested(fn) if isinstance(n, ast.Raise)]:
+        conds = X_.path_conditions(parents, r)
+        txt = " and ".join(unparse(t) for t, truth in conds if truth)
+        has_marker = any(isinstance(c, ast.Constant) and isinstance(c.value, str) and c.value and c.value in marker
+                         for t, truth in conds if truth for c in ast.walk(t))
+        nested = "lua_env_stack" in txt or "lua_frame_stack" in txt or any(isinstance(x, ast.Name) and x.id in snaps for t, truth in conds if truth for x in ast.walk(t))
+        if has_marker and nested:
+            passes_on.append(r)
+    # Lua side alternative: `error(...)` after the protected call under `nested`
+    if passes_on:
+        rr.ok("luaexec.call_lua_sandbox", "the time-limit error of a nested invocation is raised to the enclosing one", {"raise_line": passes_on[0].lineno})
+    else:
+        p2 = ctx.lua.file("_sandbox_phase2.lua")
+        inv = p2.func_named("_lua_invoke")
+        lua_reraise = False
+        if inv is not None:
+            for n in L.walk(inv):
+                if n.kind == "if":
+                    for cond, body in n.clauses:
+                        if "nested" in L.text(cond) and "not nested" not in L.text(cond) \
+                                and any(c.kind == "call" and L.text(c.func) == "error" for b in body for c in L.walk(b)):
+                            lua_reraise = True
+        if lua_reraise:
+            rr.ok("_sandbox_phase2.lua:_lua_invoke", "a nested invocation re-raises the error of the protected call")
+        else:
+            rr.bad(Finding("C07.R10", LX, "luaexec.call_lua_sandbox", "nested time-limit error returned as text",
+                           "when a nested #invoke hits the time limit the error is turned into the in-band element and handed back to the "
+                           "enclosing function as the result of frame:preprocess/expandTemplate; a loop around such a call absorbs every firing "
+                           "of the hook that lands in nested code and is never stopped", fn.lineno))
+    return rr
+
+
 def run(ctx) -> list:
     marker = _marker(ctx)
-    return [rule_r1(ctx), rule_r2(ctx, marker), rule_r3(ctx), rule_r4(ctx, marker), rule_r5(ctx, marker), rule_r6(ctx), rule_r7(ctx), rule_r8(ctx), rule_r9(ctx)]
+    return [rule_r1(ctx), rule_r2(ctx, marker), rule_r3(ctx), rule_r4(ctx, marker), rule_r5(ctx, marker), rule_r6(ctx), rule_r7(ctx), rule_r8(ctx), rule_r9(ctx),
+            rule_r10(ctx, marker)]
